@@ -19,7 +19,9 @@ theorem tie_createCall : createCallShape =
      stmt .n0, stmt .n1, stmt .n2, stmt .n3, "return c, false"] := by decide
 
 open SF in
-/-- `makeCall`: run fn, store its result; deferred: lock, **delete the entry, unlock, then Done**. -/
+/-- `makeCall`: run fn, store its result; deferred: lock, **delete the entry, unlock, then Done**.  The cleanup is a
+`defer`red function registered before `fn` is called, so it also runs when `fn` panics (model rows `mp` → `d0 … d3` → `px`;
+the store `m2` is skipped). -/
 theorem tie_makeCall : makeCallShape =
     ["defer{", "func{", stmt .d0, stmt .d1, stmt .d2, stmt .d3, "}", "call func", "}",
      stmt .m0, stmt .m2, "store c.err"] := by decide
@@ -47,7 +49,7 @@ theorem tie_lockedDo : lockedDoShape =
 
 open LC in
 /-- `lockedGroup.makeCall`: Add(1), register, unlock, run the caller's own fn; deferred: lock, **delete, unlock,
-then Done**. -/
+then Done** (registered with `defer` before `fn` runs: also executed when `fn` panics, rows `fp` → `e0 … e3` → `px`). -/
 theorem tie_lockedMakeCall : lockedMakeCallShape =
     [stmt .c0, stmt .c1, stmt .c2, stmt .c3,
      "defer{", "func{", stmt .e0, stmt .e1, stmt .e2, stmt .e3, "}", "call func", "}",
@@ -71,6 +73,19 @@ theorem tie_getResource : getResourceShape =
 theorem tie_newResourceManager : newResourceManagerShape =
     ["return &ResourceManager{ resources: make(map[string]io.Closer), singleFlight: NewSingleFlight(), }"] := by
   decide
+
+/-- `Inject`: one write-locked map store — the atomic `RM.inject` of the model (used by the correspondence runs to
+pre-register resources; outside `RM.Reach`). -/
+theorem tie_rmInject : rmInjectShape =
+    ["call manager.lock.Lock()", "mapset manager.resources[key] = resource", "call manager.lock.Unlock()"] := by decide
+
+/-- `Close`: under the write lock, close every held resource, then drop the map (the manager must not be used
+afterwards: a later `GetResource` would store into a nil map).  The correspondence runs call it after all calls
+returned and check that exactly the held instances were closed, once each. -/
+theorem tie_rmClose : rmCloseShape =
+    ["call manager.lock.Lock()", "defer{", "call manager.lock.Unlock()", "}", "var be",
+     "range manager.resources {", "call resource.Close()", "if err != nil {", "call be.Add(err)", "}", "}",
+     "store manager.resources", "call be.Err()", "return <call>"] := by decide
 
 /-! ### the synchronisation objects are the ones the rows' semantics were written for
 (`sync.Mutex`: exclusive; `sync.WaitGroup`: counter, `Wait` passes iff 0; `sync.RWMutex`: one writer or many readers;
